@@ -36,7 +36,7 @@ using namespace rkcommon;
 using c16::RNode;
 
 static const std::string SIGMA = "<>/a=\"' !-?\\";                 // (i): the 12 symbols
-static const std::string SIGMA_SUB = "<>/a=\"' !-?\\\t\n\r\v\f";  // (iii): + the control whitespace bytes
+static const std::string SIGMA_SUB = "<>/a=\"' !-?\\\t\n\r\v\f\x80\xC3\xFF";  // (iii): + the control whitespace bytes and three bytes >= 0x80
 
 // ------------------------------------------------------------------------------ shared accumulators
 enum
@@ -667,8 +667,8 @@ static void mutations_shard(const std::vector<BaseDoc> &docs, size_t B2, int sha
   size_t lo = (size_t)shard * DOCS_PER_SHARD, hi = std::min(docs.size(), lo + DOCS_PER_SHARD);
   for (size_t j = lo; j < hi && !g_stop; j++) {
     const std::string &d = docs[j].bytes;
-    long long base = (long long)(j - lo) * 4096;
-    if (base + 4095 <= resume_after)
+    long long base = (long long)(j - lo) * 8192;
+    if (base + 8191 <= resume_after)
       continue;
     if (resume_after < base)
       cnt(C_DOCS);
@@ -825,7 +825,7 @@ int main(int argc, char **argv)
     const size_t B2 = th ? 36 : 24;
     vr::run_sharded(nshards, [&](int shard, long long resume) { mutations_shard(docs, B2, shard, resume); });
     vr::sample("(iii) " + std::to_string(docs.size()) + " documents of the tree space with <= " + std::to_string(B) +
-        " bytes, each: every truncation + every byte replaced by every other one of the 12 symbols and \\t \\n \\r \\v \\f (+ for documents <= " + std::to_string(B2) +
+        " bytes, each: every truncation + every byte replaced by every other one of the 12 symbols, \\t \\n \\r \\v \\f and 0x80 0xC3 0xFF (+ for documents <= " + std::to_string(B2) +
         " bytes: every truncation with its last byte replaced); e.g. base '" + (docs.empty() ? "" : docs[docs.size() / 2].bytes) + "'");
   } else {
     printf("unknown --part %s\n", part.c_str());
